@@ -141,6 +141,10 @@ def run_pack(work, cfgname, faults, keep=False, healthy_repeat=False):
                 old.pack_partitions_to_parquet(path, filesystem=LocalFileSystem(), npartitions=5, p=6, _retry_args=retry)
             ddf = dd.from_pandas(make_frame(variant), npartitions=2)
             fs = LocalFileSystem() if healthy_repeat else VerifFS(faults=faults)
+            if overwrite and not healthy_repeat:
+                # the previous dataset was written a moment ago: its entries are the most recent changes a stale listing may miss
+                for e in sorted(os.listdir(path)):
+                    fs.mutations.append(("create", os.path.join(path, e), os.path.isdir(os.path.join(path, e))))
             obs = {"outcome": None, "exc": None}
             ncalls = 0
             try:
